@@ -860,7 +860,9 @@ def np_norm(interp, name, args, kw, st, node):
         at = None
     if at is not None:
         parts.append(("axis", at))
-    if b.get("ord") is not None and b["ord"].kind != "none":
+    ord_default = b.get("ord") is not None and b["ord"].has_const and ((rank == 1 and b["ord"].const == 2 and (at is None)) or (rank == 2 and b["ord"].const == "fro" and at is None))
+    if b.get("ord") is not None and b["ord"].kind != "none" and not ord_default:
+        # (ord=2 of a vector and ord='fro' of a matrix are the defaults, spelled out)
         parts.append(("ord", b["ord"].term))
     term = T("norm", *parts)
     axn_ = axis_of(b.get("axis"), rank)
@@ -1062,6 +1064,9 @@ def np_searchsorted(interp, name, args, kw, st, node):
         above = T("count", T("gt" if sname == "right" else "ge", s_desc, v.term))
         d = shape(a_)[0] - Dim(0, {("t", above): 1})
         return A.int_of_dim(d, _L(a_, v))
+    if shape(v) == () and shape(a_) is not None and len(shape(a_)) == 1 and sname in ("left", "right") and isinstance(a_.term, Term) and a_.term.op == "cumsum":
+        # insertion point in running sums (ascending): the number of entries <= v (side='right') / < v (side='left')
+        return V("int", T("count", T("le" if sname == "right" else "lt", a_.term, v.term)), shape=(), labels=_L(a_, v))
     return V("arr", callterm("searchsorted", [b["a"], b["v"]], {k: x for k, x in b.items() if k == "side" and x is not None}), shape=shape(v), labels=_L(b["a"], v), orig=frozenset([FRESH]), loc=fresh_id(), extra="int")
 
 
